@@ -334,6 +334,19 @@ def run_check(pid, tier, seed):
             for a in h.get("assumes", []):
                 if a not in assumptions:
                     assumptions.append(a)
+    # ---- E3 native witnesses of derived refutations (a lemma proves the negation of a sentence of the
+    # property from the contracts; the witness replays an instance on the real code)
+    for w in P.get("witnesses", []):
+        try:
+            conf, outw = run_witness(repo_copy, w, seed)
+        except ToolError as e:
+            undecided.append("witness %s: %s" % (w["id"], e)); continue
+        fns.append({"function": "native witness %s" % w["id"], "backend": "cargo test (real code)", "mode": "replay",
+                    "status": "refutation confirmed" if conf else "not reproduced", "about": w["about"]})
+        if conf:
+            violations.append({"fn": w["about"], "kind": "derived-refutation", "text": outw, "clause": w["lemma"],
+                               "props": [pid], "rendered": outw, "src": w.get("src"), "obligation": "witness/" + w["id"],
+                               "input": {"replay_test": w["test"], "output": outw}})
     # ---- vacuity canary (the toolchain must be able to fail)
     try:
         C = verify_unit("canary", repo_copy, sdir)
@@ -413,6 +426,19 @@ def run_check(pid, tier, seed):
         return 2
     print("OK property=%s obligations=%d discharged=%d bounded_standins=%d wall=%.1fs" % (pid, obligations, discharged, len(bounded), wall))
     return 0
+
+def run_witness(repo_copy, w, seed):
+    dst = os.path.join(repo_copy, w["dir"], "tests")
+    os.makedirs(dst, exist_ok=True)
+    name = "verif_" + w["id"]
+    shutil.copy(os.path.join(VERIF, w["test"]), os.path.join(dst, name + ".rs"))
+    env = runner.offline_env({"CARGO_TARGET_DIR": os.path.join(runner.CACHE, "ntarget"), "VERIF_SEED": str(seed)})
+    r = subprocess.run(["cargo", "test", "-p", w["package"], "--test", name, "--offline", "--", "--nocapture"],
+                       cwd=repo_copy, env=env, stdout=subprocess.PIPE, stderr=subprocess.STDOUT, text=True, timeout=900)
+    m = re.search(r"WITNESS-(CONFIRMED|NOT-REPRODUCED)[^\n]*", r.stdout)
+    if not m:
+        raise ToolError("witness test gave no verdict:\n" + r.stdout[-1500:])
+    return m.group(1) == "CONFIRMED", m.group(0)
 
 # ----------------------------------------------------------------------
 def setup():
